@@ -33,12 +33,13 @@ type mService struct {
 func (s *mService) full(bxh uint64) string { return fullServiceID(bxh, s.chain.id, s.id) }
 
 type mChain struct {
-	id       string
-	admin    *Key
-	services []*mService
-	rule     string // happy | bit | fabsim: the master rule (observed after every block when rule operations are generated)
-	ruleAt   uint64 // height of the last block in which the observed master rule changed
-	swapped  bool   // the admin the chain was registered with has been replaced (adminswap)
+	id        string
+	admin     *Key
+	services  []*mService
+	rule      string // happy | bit | fabsim: the master rule (observed after every block when rule operations are generated)
+	ruleAt    uint64 // height of the last block in which the observed master rule changed
+	swapped   bool   // the admin the chain was registered with has been replaced (adminswap)
+	loggedOut bool   // the appchain's logout was approved (observed status forbidden): no rule is bound to it any more
 }
 
 type txMeta struct {
@@ -524,6 +525,8 @@ func (s *scn) apply(st CStep) {
 		s.res.Count("ghost_burst")
 	case "ruleop":
 		s.applyRuleOp(st)
+	case "chainlogout":
+		s.applyChainLogout(st)
 	case "eth":
 		s.applyEth(st)
 	case "kv":
